@@ -39,10 +39,12 @@ const (
 	behUnordered // intersection, ascending
 	behDuplicates
 	behEmpty
+	behZigzag   // common versions: second highest first, then descending, the highest last
+	behPermuted // common versions in a permutation chosen by the scenario's order seed
 	nBehaviours
 )
 
-var behNames = []string{"conformant", "discovery-unsupported", "lists-unoffered", "unordered", "duplicates", "empty-list"}
+var behNames = []string{"conformant", "discovery-unsupported", "lists-unoffered", "unordered", "duplicates", "empty-list", "zigzag", "permuted"}
 
 type C13Sc struct {
 	Client   int  `json:"client"`    // bitmask over 1.0..1.4, non-empty
@@ -83,6 +85,9 @@ func c13Grid(tier string) []*C13Sc {
 		for s := 0; s < 32; s++ {
 			for b := 0; b < nBehaviours; b++ {
 				out = append(out, &C13Sc{Client: c, Server: s, Beh: b, Enforce: -1, FollowUp: true, Clone: b == 0})
+			}
+			for o := 1; o <= 3; o++ {
+				out = append(out, &C13Sc{Client: c, Server: s, Beh: behPermuted, Order: o, Enforce: -1, FollowUp: true})
 			}
 			out = append(out, &C13Sc{Client: c, Server: s, Real: true, Enforce: -1, FollowUp: true, Clone: true})
 		}
@@ -175,6 +180,13 @@ func execC13(x *X, scAny any) {
 					slices.SortFunc(list, ttlv.CompareVersions)
 				case behEmpty:
 					list = nil
+				case behZigzag:
+					list = slices.Clone(common)
+					if len(list) > 1 {
+						list = append(list[1:], list[0])
+					}
+				case behPermuted:
+					list = permute(common, sc.Order+7)
 				}
 				advertised = list
 				ri.ResponsePayload = &payloads.DiscoverVersionsResponsePayload{ProtocolVersion: list}
@@ -386,7 +398,7 @@ func init() {
 		Config: func(any) simrt.Config { return simrt.Config{MaxSteps: 100000, IdleProbe: 4 * time.Second} },
 		Runs:   clientRuns(20000, 2000000),
 		Floors: []Floor{{Name: "grid", Count: func(t string) int { return len(c13Grid(t)) }, Scenario: func(t string, i int) any { return c13Grid(t)[i] }}},
-		Rule:   "one evaluation = one simulated dial (real kmipclient negotiation against a scripted server with one of six behaviours, or against the real kmipserver) followed by one request on the original and one on a cloned client; the grid floor sweeps all 31 client sets x 32 server sets x 6 behaviours + real server + enforced versions completely; distinct = distinct event-log hashes among runs with at least one chunked read, stall or preemption",
+		Rule:   "one evaluation = one simulated dial (real kmipclient negotiation against a scripted server with one of eight behaviours (conformant, discovery unsupported, lists unoffered versions, ascending, duplicates, empty, zigzag, seeded permutation), or against the real kmipserver) followed by one request on the original and one on a cloned client; the grid floor sweeps all 31 client sets x 32 server sets x 8 behaviours (+3 permutations) + real server + enforced versions completely; distinct = distinct event-log hashes among runs with at least one chunked read, stall or preemption",
 		Components: map[string][]string{
 			"real": {"kmipclient (DialContext, negotiateVersion, Clone, BatchOpt)", "kmipserver (Server, BatchExecutor.handleDiscover, SetSupportedProtocolVersions) in the real-server cells", "ttlv.Stream and codec"},
 			"stub": {"network (simnet)", "scripted server with six discovery behaviours", "clock (synctest)", "TLS (absent)"},
